@@ -539,6 +539,9 @@ func vfGenAPISpecs(tier string, seed uint64, race bool) []vfSpec {
 							sp.Link.LossPm = r.Pick(0, 50)
 						case "oversize", "empty":
 							sp.X["pos"] = v
+							// the degenerate call must be harmless in blocking-write mode too (it returns before or
+							// after the per-stream write lock is taken)
+							sp.A.BlockWrite = idx%2 == 1
 						}
 						out = append(out, sp)
 						idx++
